@@ -13,6 +13,8 @@ pub mod c10;
 pub mod c12;
 pub mod c13;
 pub mod c14;
+pub mod c15;
+pub mod c16;
 pub mod c17;
 pub mod util;
 
@@ -78,7 +80,7 @@ pub trait Scenario: Sync {
 }
 
 pub fn registry() -> Vec<&'static dyn Scenario> {
-    vec![&c02::C02, &c03::C03, &c06::C06, &c07::C07, &c09::C09, &c10::C10, &c12::C12, &c13::C13, &c14::C14, &c17::C17]
+    vec![&c02::C02, &c03::C03, &c06::C06, &c07::C07, &c09::C09, &c10::C10, &c12::C12, &c13::C13, &c14::C14, &c15::C15, &c16::C16, &c17::C17]
 }
 pub fn lookup(id: &str) -> Option<&'static dyn Scenario> {
     registry().into_iter().find(|s| s.id().eq_ignore_ascii_case(id))
